@@ -471,7 +471,7 @@ func run(c *vh.Ctx) error {
 		"fxamacker hands UnmarshalCBOR exactly the item's bytes: a theorem for the model parser (Lib.parse_full_sound), checked for fxamacker by the stored-bytes monitor against an independent walker",
 		"Blake2b-256 is a Section variable in C01_hash_binds; the monitor recomputes it with golang.org/x/crypto",
 		"Byron and Dijkstra blocks: monitored (stored bytes, hashes, re-serialisation) but ExtractAndSetTransactionCbor is only modelled for the Shelley..Conway layout",
-		"histories: SetCbor / SetCborReference are modelled as an allocate-only store (C01.Store: a decode never writes a buffer an earlier decode handed out; theorem C01_retained_stable); the implementation is held to it by the retained-* monitor keys only (no Coq case file for histories)",
+		"histories: SetCbor / SetCborReference are modelled as an allocate-only store (C01.Store: a decode never writes a buffer an earlier decode handed out; theorem C01_retained_stable); the caller's buffer is a heap cell the decode only reads (decode_from / scribble, theorem C01_input_overwrite_stable); the implementation is held to both by the retained-* / retained-input:* monitor keys only (no Coq case file for histories)",
 		"block-derived Transaction.Cbor() is assembled (no wire range exists for a Shelley+ transaction inside a block) and is not compared; standalone transactions are (decode_tx models the accept case: era field decoding is abstract)",
 	}
 	r := &runner{c: c, coqBudget: c.Pick(90_000, 900_000)}
